@@ -7,7 +7,7 @@ from .. import cutfind
 from ..core import call_real
 
 ID = "C08"
-LEAN_MODULE = "CKT.Props.C08Wire"
+LEAN_MODULE = "CKT.Props.C08Prune"
 THEOREMS = [
     # T08.4 at specification level (gate cuts): useless cuts can be removed without changing the subcircuits or raising the overhead
     "CKT.C08Spec.conn_prune", "CKT.C08Spec.cost_prune_le", "CKT.C08Spec.prune_no_useless", "CKT.C08Spec.useless_cuts_removable",
@@ -23,7 +23,14 @@ THEOREMS = [
     # plans beyond the search's wire budget cost more than the greedy incumbent; flag => reported overhead <= overhead of every such plan
     "CKT.C08Wire.merge_same", "CKT.C08Wire.fresh_same", "CKT.C08Wire.step_app", "CKT.C08Wire.step_gcut", "CKT.C08Wire.step_left",
     "CKT.C08Wire.step_right", "CKT.C08Wire.step_both", "CKT.C08Wire.plan_stepW", "CKT.C08Wire.plan_reachableW", "CKT.C08Wire.optimize_min_over_plans",
-    "CKT.C08Wire.cost_ge_pow", "CKT.C08Wire.ceilLog2_spec", "CKT.C08Wire.over_gamma_budget", "CKT.C08Wire.optimize_min_over_plans_any_budget"] + ["CKT.C08." + t for t in [
+    "CKT.C08Wire.cost_ge_pow", "CKT.C08Wire.ceilLog2_spec", "CKT.C08Wire.over_gamma_budget", "CKT.C08Wire.optimize_min_over_plans_any_budget",
+    # T08.4 in full (Props/C08Prune): a useless cut — gate cut or wire cut — can be dropped: the plan without it replays to the phi-image of the
+    # bookkeeping (wire d identified with wire o, later wires move down), no subcircuit grows, the cost falls; by induction on the number of cuts every
+    # width-feasible plan is dominated by one without useless cuts; flag => reported overhead <= overhead of EVERY width-feasible plan
+    "CKT.C08Wire.phi_fibre", "CKT.C08Wire.sim_step", "CKT.C08Wire.Drop.conn_fwd", "CKT.C08Wire.Drop.conn_bwd", "CKT.C08Wire.countP_le_of_inj",
+    "CKT.C08Wire.Drop.feasible", "CKT.C08Wire.drop_left", "CKT.C08Wire.drop_right", "CKT.C08Wire.drop_both1", "CKT.C08Wire.drop_both2",
+    "CKT.C08Wire.gcut_conn", "CKT.C08Wire.costUpTo_mono", "CKT.C08Wire.mu_lt", "CKT.C08Wire.improve", "CKT.C08Wire.prune_exists",
+    "CKT.C08Wire.optimize_min_over_all_plans"] + ["CKT.C08." + t for t in [
     "desc_cost", "insertKey_sorted", "put1_spec", "put_spec", "lb_of_head", "lb_of_empty", "updMin_fields", "updUb_fields",
     "good_flag_of_popped", "loop_good", "pass_good", "flag_sound", "actCost_ge_one", "child_cost", "cut_mono", "firstMin_spec",
     "passes_inv", "startSearch_good", "optimize_flag_sound",
@@ -39,9 +46,10 @@ RULE = ("as C07, with emphasis on search limits: gamma limits below, at and abov
 ASSUMPTIONS = ["the theorem `optimize_flag_sound` quantifies over the goal states of the model's search tree (per-gate choices that pass the action "
                "guards within the wire budget); for gate-cut plans `C08Link.optimize_min_over_gate_plans` proves that these cover, cost-wise, every "
                "width-feasible plan of the specification (subcircuits = connected components of the applied gates); for plans with wire cuts "
-               "`C08Wire.optimize_min_over_plans_any_budget` proves it for every width-feasible plan WITHOUT useless cuts (whatever its number of wire "
-               "cuts); that a plan with a useless wire cut is dominated by one without (drop the cut: the two wire segments merge inside one subcircuit) is "
-               "the one step not proved — validated by the brute force over all 5^g plans of the independent segment model",
+               "`C08Wire.optimize_min_over_all_plans` (Props/C08Prune) proves it for every width-feasible plan (subcircuits = classes of wires joined by the gates "
+               "that are not gate-cut, a wire cut giving the qubit a fresh wire), under the hypotheses that the greedy pass found an incumbent and that its cost "
+               "is below 2^4096 (the fuel of the model's ceil-log2); the brute force over all 5^g plans of the independent segment model still validates the "
+               "specification against the code",
                "numpy Generator stream, kappa values and heapq as in C07"]
 
 
